@@ -149,3 +149,13 @@ func init() {
 		LevelText:   "fault enumeration over trigger kind, verdict, holding, position and repetition",
 		LevelNote:   "trusted base: exact partial quiescence (everything idle except the withheld access request), SimBus ordering"})
 }
+
+func init() {
+	add(&Prop{ID: "C19", Level: "exploration", Shards: 16, RaceShards: 8,
+		Technique:   "runtime monitoring: invariant monitor (active <= limit, every callback runs) and porcupine linearizability check of recorded Add/Done histories of the exported Throttle against a sequential model; boundary monitor counting outstanding governed requests at every SendRequest under adversarial answer orders; race detector attributed to Throttle",
+		Rule:        "direct: 2-8 goroutines x 1-5 Add each on throttles of limit 1-4, callbacks completing on other goroutines with seeded delays, each history (<= 60 operations) checked by porcupine (10 s timeout = inconclusive count); system: {reference throttle, reset throttle with resources, with resources+access, with busy subscriptions} x limit {0,1,2,3,8} x fan-out {1,2,3,5,9,14} x answer order {oldest, newest, random} x {1,3} connections with shared/cyclic children; outstanding governed requests <= N at every request, complete fan-out at quiescence, nothing delayed for N=0; distinct = parameter tuple / enumeration index, all non-trivial",
+		Assumptions: []string{"which waiter a Done released is not observable at its return (the hand-over is a go statement); the porcupine model therefore decides admission (inline vs queued), the invariants cover the hand-over", "per-throttle attribution is not visible at the boundary: one reset / one subscription is in progress at a time in the bound checks"},
+		DesignRef:   "DESIGN.md §4 C19",
+		LevelText:   "exploration: thousands of short concurrent Add/Done histories checked for linearizability and invariants, plus an enumerated grid of system-level topologies with the bound asserted at every SendRequest",
+		LevelNote:   "trusted base: porcupine v1.3.0, the 20-line sequential model, SimBus OnRequest hook"})
+}
